@@ -800,7 +800,7 @@ class PointJacobi(AbstractPoint):
         I = 4 * HH % p
         J = H * I
         r = 2 * (Y2 - Y1)
-        if not H and not r:
+        if not H % p and not r % p:
             return self._double_with_z_1(X1, Y1, p, self.__curve.a())
         V = X1 * I
         X3 = (r**2 - J - 2 * V) % p
